@@ -1,7 +1,8 @@
 SPECIFICATION GSpec
 CONSTANTS NB = 2
           NID = 1
+          Wide = FALSE
           MaxBatch = 2
           D = 3
           E = 3
-INVARIANTS Emit
+INVARIANTS Emit EmitUniverse
